@@ -25,6 +25,7 @@ From ClapModel Require Gen.BoolTables.
 From ClapModel Require Import Parse.Cmd Parse.Build Parse.Valid Parse.Matcher Parse.Errors Parse.Validator Parse.Parser.
 From ClapModel Require Import ParseProofs.Safe ParseProofs.Relations ParseProofs.Globals ParseProofs.Dispatch
                               ParseProofs.TypedInv ParseProofs.TypedView ParseProofs.TypedMerge.
+From ClapModel Require ParseProofs.ErrorSound.
 Import ListNotations.
 Open Scope N_scope.
 
@@ -394,3 +395,8 @@ Lemma read_lv_spec sp l :
   read_lv sp l <->
   (forall i ma vp, fm_get i l = Some ma -> sp i = Some vp -> Forall (Forall (stored_reading vp)) (m_raw ma)).
 Proof. split; intros H; exact H. Qed.
+
+(** C10's language predicate ([ErrorSound.in_lang], the one its pinned statements negate: "the rejected value is
+    NOT in the language of the argument's parser") is the documented language *)
+Theorem in_lang_reading vp s : ClapModel.ParseProofs.ErrorSound.in_lang vp s <-> stored_reading vp s.
+Proof. rewrite <- ClapModel.ParseProofs.ErrorSound.vp_parse_accepts_iff. apply accepts_reading. Qed.
